@@ -340,6 +340,7 @@ class REPL(code.InteractiveConsole):
         try:
             eval(code[0], self.locals)
             self.last_value = eval(code[1], self.locals)
+            self._evaluated = True
             # Don't print `None` values.
             self.print_last_value = self.last_value is not None
         except SystemExit:
@@ -350,6 +351,9 @@ class REPL(code.InteractiveConsole):
             self.showtraceback()
 
     def runsource(self, source, filename="<stdin>", symbol="exec"):
+        # Whether this input produced a new `last_value`. If it didn't
+        # (e.g., because of an error), `*1` etc. shouldn't be shifted.
+        self._evaluated = False
         try:
             res = super().runsource(source, filename, symbol)
         except (HyMacroExpansionError, HyRequireError):
@@ -364,7 +368,7 @@ class REPL(code.InteractiveConsole):
             return False
 
         # Shift exisitng REPL results
-        if not res:
+        if not res and self._evaluated:
             next_result = self.last_value
             for sym in self._repl_results_symbols:
                 self.locals[sym], next_result = next_result, self.locals[sym]
